@@ -2,7 +2,7 @@ PROP = dict(
         coq="Properties/C07.v",
         workloads=[
             dict(name="liquidity-orders", go_test="TestC07", runner="C07",
-                 env=dict(quick=dict(VERIF_CASES=40), thorough=dict(VERIF_CASES=1500))),
+                 env=dict(quick=dict(VERIF_CASES=40), thorough=dict(VERIF_CASES=800))),
         ],
         rule="case = (3 apps with swap fee rate drawn from {0, 0.003, 0.3} and market-making tick counts {2,3,10}, 1-3 pairs per app so that app id "
              "and pair id vary independently over {1,2,3}x{1,2,3}, optional basic pool per pair, then 3-8 batches of 10-40 ops: limit / market / "
